@@ -447,6 +447,15 @@ def evaluate__sum(self: XPathFunction, context: ta.ContextType = None) -> ta.One
         zero = 0 if len(self) == 1 else self.get_argument(context, index=1)
         return [] if zero is None else zero
 
+    if self.parser.version != '1.0':
+        # XPath 2.0+: untyped values are cast to xs:double, the other values must
+        # be numeric or durations (a boolean is not a number)
+        values = [self.cast_to_double(x.value) if isinstance(x, UntypedAtomic) else x
+                  for x in values]
+        if any(isinstance(x, bool) or not isinstance(x, (int, float, decimal.Decimal, Duration))
+               for x in values):
+            raise self.error('FORG0006', 'non numeric value in the sequence')
+
     if all(isinstance(x, (decimal.Decimal, int)) for x in values):
         result = sum(values) if len(values) > 1 else values[0]
     elif all(isinstance(x, DayTimeDuration) for x in values) or \
